@@ -5,8 +5,52 @@
    kinds: 0 = molecule built by assignment, 1 = overflow singleton, 2 = invalid fragment yielded alone. *)
 From Coq Require Import ZArith List Bool Permutation.
 Import ListNotations.
-From SCMO Require Import Lib.Val Model.C06 Proofs.C06 Proofs.C06_dup Proofs.C06_main Proofs.C06_greedy Proofs.C06_cap Proofs.C06_state.
+From SCMO Require Import Lib.Val Gen.GenAssign Model.C06 Proofs.C06_shape Proofs.C06 Proofs.C06_dup Proofs.C06_main Proofs.C06_greedy Proofs.C06_cap Proofs.C06_state.
 Open Scope Z_scope.
+
+(* ---- T: the kernel REGENERATED from /repo (Gen/GenAssign.v), with which the model is defined, has the shape the
+   proofs below rely on.  These are the obligations a changed operator / compared attribute / hash component /
+   capacity test / tag expression in the source breaks. *)
+
+(* guard chains of NlaIIIFragment.__eq__, CHICFragment.__eq__ (radius test `>`, only for radius > 0), Fragment.__eq__
+   (sample, strand, contig, min(|start-start'|,|end-end'|) > radius) *)
+Theorem C06_kernel_eq : forall c f m, accepts c f m = accepts_spec c f m.
+Proof. exact accepts_shape. Qed.
+Print Assumptions C06_kernel_eq.
+
+(* Fragment.umi_eq: equal -> True; distance 0 -> False; lengths differ -> False; hamming <= distance *)
+Theorem C06_kernel_umi : forall d a b,
+  umi_eq d a b = (if zs_eqb a b then true else if d =? 0 then false
+                  else if negb (Nat.eqb (length a) (length b)) then false else hamming a b <=? d).
+Proof. exact umi_eq_shape. Qed.
+Print Assumptions C06_kernel_umi.
+
+(* match_hash tuples (composed with what set_site stores): NLA and CHIC radius 0 pin strand, contig, site and cell;
+   CHIC radius <> 0 pins strand, contig and cell *)
+Theorem C06_kernel_hash : forall c f g,
+  (c_cls c = 1 \/ (c_cls c = 2 /\ c_r c = 0) ->
+   (key c f = key c g <-> f_strand f = f_strand g /\ f_contig f = f_contig g /\ f_site f = f_site g /\ f_cell f = f_cell g)) /\
+  (c_cls c = 2 -> c_r c <> 0 -> key c f = key c g -> f_strand f = f_strand g /\ f_contig f = f_contig g /\ f_cell f = f_cell g).
+Proof. exact key_shape. Qed.
+Print Assumptions C06_kernel_hash.
+
+(* add_fragment: a refused fragment goes on to the next molecule; the capacity test `len >= cap` applies only to a
+   fragment that matches (OverflowError), otherwise it is added; the constructor raises exactly for cap <= 0 *)
+Theorem C06_kernel_add : forall c f m ms,
+  offer c f (m :: ms) =
+  (if accepts c f m then (if full c m then Overflowed (mol_bump m f :: ms) else Added (mol_add m f :: ms))
+   else match offer c f ms with Added r => Added (m :: r) | Overflowed r => Overflowed (m :: r) | Rejected => Rejected end) /\
+  cap_bad c = match c_cap c with Some k => k <=? 0 | None => false end.
+Proof. exact add_shape. Qed.
+Print Assumptions C06_kernel_add.
+
+(* write_tags: RC = rank, duplicate bit = (rank > 0) whatever the input flag, af = size, TF = size + overflow *)
+Theorem C06_kernel_tags : forall n over rc f fs, 0 <= n -> 0 <= rc ->
+  tags_from true n over rc (f :: fs) =
+  {| t_id := f_id f; t_rc := rc; t_dup := 0 <? rc; t_af := n; t_tf := n + over; t_qc := negb (f_valid f) |}
+  :: tags_from true n over (rc + 1) fs.
+Proof. exact tags_from_cons. Qed.
+Print Assumptions C06_kernel_tags.
 
 (* the iterator returns whenever the cap is None or >= 1 *)
 Theorem C06_run_total : forall c frags, cap_bad c = false -> exists out, assign c frags = Some out.
